@@ -263,6 +263,10 @@ class Program:
 
     def fn(self, short):
         """'Interpreter.execute_once', 'sorted_groupby', 'SimulatedClock.time@setter'."""
+        if ':' in short:
+            if short in self.funcs:
+                return self.funcs[short]
+            raise AnalysisError('function %s not found' % short)
         cands = self.func_short.get(short, [])
         cands = [c for c in cands if c.module.name != 'sismic.code.context'] or cands
         if len(cands) != 1:
